@@ -751,6 +751,16 @@ class RequestHandler:
                 "(should be lowercase)",
                 DeprecationWarning,
             )
+        # The Set-Cookie header is only generated in flush(), where an error can no longer be
+        # reported to the caller and aborts the whole response. Make sure now that this cookie
+        # can be sent (no characters outside latin1 in the value or in an attribute, ...).
+        header = morsel.OutputString(None)
+        try:
+            httputil.HTTPHeaders().add("Set-Cookie", self._convert_header_value(header))
+        except (ValueError, httputil.HTTPInputError):
+            raise http.cookies.CookieError(
+                f"Invalid cookie {name!r}: {header!r} cannot be sent as a header"
+            ) from None
         if not hasattr(self, "_new_cookie"):
             self._new_cookie: http.cookies.SimpleCookie = http.cookies.SimpleCookie()
         if name in self._new_cookie:
